@@ -15,7 +15,7 @@ DEFAULT_WEIGHTS = dict(
     connect=6, end=2, quit=1, join=14, part=5, kick=5, topic=4, invite=4, cmode=14, umode=4,
     nick=5, privmsg=10, notice=6, away=2, oper=2, kill=1, wallops=2, stats=1, die=0.3, squit=0.3,
     names=3, who=3, whois=3, list=2, lusers=2, ison=1, userhost=1, whowas=1, chanlist=2, cquery=1,
-    cap=1.5, half=2.5, half_complete=2.5, half_end=1.5, reuser=1.5,
+    cap=1.5, half=2.5, half_complete=2.5, half_end=1.5, reuser=1.5, half_probe=2.5,
 )
 
 ENDINGS = ["close", "rst", "halfclose", "midline", "badutf8"]
@@ -44,6 +44,7 @@ class Gen:
             self.mode_weights.update(mode_weights)
         self.counter = 0
         self.used_nicks = []
+        self.boundary_rate = 0.12
 
     # ------------------------------------------------------------ pools
     @property
@@ -170,6 +171,28 @@ class Gen:
             return None
         return ("half_complete", self.r.choice(h), self.r.choice(["hf", "hf2"]))
 
+    def g_half_probe(self, live):
+        """a never-welcomed connection tries a gated command - aimed at the owner of the nickname it claimed, at
+        operators, at channels"""
+        h = self.halves()
+        if not h:
+            return None
+        r = self.r
+        cid = r.choice(h)
+        claim = self.m.conn[cid].get("claim") or self.some_nick(1.0)
+        other = self.some_nick(1.0)
+        ch = self.some_chan(0.9)
+        if ch == "#":
+            ch = "#x"  # a bare sigil is not a valid PRIVMSG target: the syntax error would come before the 451
+        line = r.choice([
+            "PRIVMSG %s :from nobody" % other, "PRIVMSG %s :from nobody" % ch, "JOIN %s" % ch, "MODE %s +i" % claim,
+            "MODE %s -o" % claim, "MODE %s -o" % other, "KILL %s :by nobody" % other, "KILL %s :by nobody" % claim,
+            "WALLOPS :from nobody", "OPER root rootpw", "AWAY :nobody is away", "TOPIC %s :nobody's topic" % ch,
+            "NAMES %s" % ch, "WHOIS %s" % claim, "ISON %s" % other, "PART %s" % ch, "KICK %s %s" % (ch, other),
+            "INVITE %s %s" % (other, ch), "LUSERS", "STATS u", "PING x", "PONG x", "DIE", "SQUIT irc.verif.test :x",
+            "MODE %s +m" % ch, "WHO %s" % ch, "LIST", "USERHOST %s" % other, "WHOWAS %s" % other])
+        return ("half_probe", cid, line)
+
     def g_half_end(self, live):
         h = self.halves()
         if not h:
@@ -247,6 +270,18 @@ class Gen:
             return None
         cid, c = a
         r = self.r
+        if r.random() < 0.4:
+            # prefer an actor of middle rank on a channel with other ranked members (half-operator against operator,
+            # operator against protected ...): the decisions the rank order exists for
+            mid = []
+            for x in live:
+                u = self.m.user_of(x)
+                for cn in u.channels:
+                    mem = self.m.chans[cn].members
+                    if mem[u.nick] and "q" not in mem[u.nick] and any(rk for n_, rk in mem.items() if n_ != u.nick):
+                        mid.append((x, cn))
+            if mid:
+                cid, c = r.choice(mid)
         ch = self.m.chans.get(c)
         pool = list(ch.members) if ch else []
         users = []
@@ -255,6 +290,18 @@ class Gen:
                 users.append(r.choice(pool))
             else:
                 users.append(self.some_nick())
+        me = self.m.conn[cid]["nick"]
+        ranked = [m for m in pool if ch.members[m] and m != me] if ch else []
+        if ranked and r.random() < 0.35:
+            # rank against rank: who may remove whom is decided by the ranks the MODE history left behind
+            users[0] = r.choice(ranked)
+        if pool and r.random() < 0.2:
+            # the same name again, adjacent and not adjacent ("absent and repeated names are refused individually")
+            x = r.choice(pool)
+            others = [r.choice(pool) if r.random() < 0.7 else self.some_nick() for _ in range(r.choice([0, 1, 1, 2]))]
+            users = [x] + others + [x]
+            if r.random() < 0.3:
+                users.append(r.choice(users))
         comment = self.text() if r.random() < 0.6 else None
         return ("act", cid, {"verb": "KICK", "chan": c, "users": users, "comment": comment})
 
@@ -284,7 +331,7 @@ class Gen:
         members = list(ch.members) if ch else []
         groups = []
         ar = ch.members.get(self.m.conn[cid]["nick"], set()) if ch else set()
-        if members and ar and r.random() < 0.12:
+        if members and ar and r.random() < self.boundary_rate:
             # privilege boundary: a rank letter the actor may not give, followed by a letter it may, in one string
             refused = [l for l in "qaoh" if not {"q": "q" in ar, "a": bool(ar & set("qa")), "o": bool(ar & set("qao")),
                                                   "h": bool(ar & set("qao"))}[l]]
@@ -357,6 +404,9 @@ class Gen:
         cid = r.choice(live)
         me = self.m.conn[cid]["nick"]
         target = me if r.random() < 0.8 else self.some_nick()
+        twins = [n for n in self.m.users if n != me and n.lower() == me.lower()]
+        if twins and r.random() < 0.4:
+            target = r.choice(twins)  # another user whose nickname differs from the actor's in letter case only
         if r.random() < 0.1:
             return ("act", cid, {"verb": "MODE", "target": target, "modes": []})
         ms = ""
